@@ -73,7 +73,11 @@ class Report:
         return self._add(rule, OK, site, construct, what, detail)
 
     def violation(self, rule, site, construct, what, detail="", offending=""):
-        return self._add(rule, VIOLATION, site, construct, what, detail, offending or detail)
+        off = offending or detail
+        for o in self.obs:  # the same violation reached on several paths is one violation
+            if o.verdict == VIOLATION and (o.rule, o.construct, o.what, o.offending) == (rule, construct, what, off):
+                return o
+        return self._add(rule, VIOLATION, site, construct, what, detail, off)
 
     def undecided(self, rule, site, construct, what, detail=""):
         return self._add(rule, UNDECIDED, site, construct, what, detail)
@@ -108,7 +112,7 @@ def load_known_findings() -> List[dict]:
 def match_finding(ob: Obligation, prop: str, findings: List[dict]) -> Optional[dict]:
     for f in findings:
         if (
-            f.get("property") == prop
+            (f.get("property") == prop or prop in f.get("also", []))
             and f.get("rule") == ob.rule
             and f.get("construct") == ob.construct
             and f.get("digest") == ob.digest
